@@ -67,9 +67,9 @@ def gen_stages(rng, paired):
     if rng.random() < 0.3:
         st.append(("nextseq", ["--nextseq-trim", str(rng.choice([10, 20]))]))
     if rng.random() < 0.6:
-        g = ["-q", rng.choice(["10", "15,10", "20,0"])]
+        g = ["-q", rng.choice(["10", "15,10", "20,0", "0", "0,10"])]
         if paired and rng.random() < 0.4:
-            g += ["-Q", rng.choice(["5", "0", "10,20"])]
+            g += ["-Q", rng.choice(["5", "0", "10,20", "0,0"])]
         st.append(("qual", g))
     if rng.random() < 0.8:
         if rng.random() < 0.7:
@@ -84,12 +84,12 @@ def gen_stages(rng, paired):
     if rng.random() < 0.4:
         st.append(("polya", ["--poly-a"]))
     if rng.random() < 0.5:
-        g = ["-l", str(rng.choice([5, 10, 20, -8]))]
+        g = ["-l", str(rng.choice([5, 10, 20, -8, 0, 1]))]
         if paired and rng.random() < 0.4:
-            g += ["-L", str(rng.choice([7, -3]))]
+            g += ["-L", str(rng.choice([7, -3, 0, 0, 1]))]
         st.append(("length", g))
     elif paired and rng.random() < 0.15:
-        st.append(("length", ["-L", str(rng.choice([9, -4]))]))
+        st.append(("length", ["-L", str(rng.choice([9, -4, 0]))]))
     if rng.random() < 0.5:
         st.append(("trimn", ["--trim-n"]))
     if rng.random() < 0.4:
